@@ -7,15 +7,44 @@ import (
 )
 
 type stdModel struct {
-	pure bool
-	f    func(v *FnV, st *State, call *ast.CallExpr, recv *Value, args []Value) []Value
+	pure   bool
+	f      func(v *FnV, st *State, call *ast.CallExpr, recv *Value, args []Value) []Value
+	norecv bool
+}
+
+func init() {
+	noop := func(v *FnV, st *State, call *ast.CallExpr, recv *Value, args []Value) []Value { return nil }
+	for _, n := range []string{"sync.Mutex.Lock", "sync.Mutex.Unlock", "sync.RWMutex.Lock", "sync.RWMutex.Unlock", "sync.RWMutex.RLock", "sync.RWMutex.RUnlock"} {
+		// critical sections are verified as if sequential (trusted base, DESIGN §4.6)
+		stdModels[n] = stdModel{pure: true, f: noop, norecv: true}
+	}
+	stdModels["sort.Search"] = stdModel{pure: true, f: func(v *FnV, st *State, call *ast.CallExpr, recv *Value, args []Value) []Value {
+		// the predicate closure is not executed; only the documented range of the result is used
+		r := st.freshVal("search", tInt)
+		st.assume(sAnd(sLe("0", r.S), sLe(r.S, sIte(sLt(args[0].S, "0"), "0", args[0].S))))
+		return []Value{r}
+	}}
+	stdModels["strings.Repeat"] = stdModel{pure: true, f: func(v *FnV, st *State, call *ast.CallExpr, recv *Value, args []Value) []Value {
+		s, n := args[0].S, args[1].S
+		v.safety(st, "call:Repeat", call, sGe(n, "0"), "strings.Repeat: count must be non-negative")
+		if !v.c.bv {
+			v.safety(st, "call:Repeat", call, sLe(sx("*", sx("slen", s), n), "4611686018427387904"), "strings.Repeat: result length must not overflow")
+		}
+		rb := v.c.freshName("repb")
+		st.declare(rb, "(Array Int Int)")
+		ln := st.define("replen", "Int", sx("*", sx("slen", s), n))
+		if lit, ok := v.litContent(s); ok && len(lit) == 1 {
+			st.assume(fmt.Sprintf("(forall ((k!c Int)) (! (=> (and (<= 0 k!c) (< k!c %s)) (= (select %s k!c) %d)) :pattern ((select %s k!c))))", ln, rb, int(lit[0]), rb))
+		}
+		return []Value{{T: tString, S: fmt.Sprintf("(mkstr %s 0 %s)", rb, ln)}}
+	}}
 }
 
 var stdModels = map[string]stdModel{}
 
 func init() {
 	reg := func(name string, pure bool, f func(v *FnV, st *State, call *ast.CallExpr, recv *Value, args []Value) []Value) {
-		stdModels[name] = stdModel{pure, f}
+		stdModels[name] = stdModel{pure: pure, f: f}
 	}
 	reg("strconv.Itoa", true, func(v *FnV, st *State, call *ast.CallExpr, recv *Value, args []Value) []Value {
 		v.c.glob("itoa", "(declare-fun itoa (Int) Str)",
